@@ -19,8 +19,8 @@ META = {
             "equal modulo AuxData values. Non-trivial = a perturbation pair "
             "or an equal pair with >=4 node kinds; distinct = hash of "
             "(normalised spec, perturbation label).",
-    "reach": {"equal_pairs": 100, "perturbed_pairs": 3000,
-              "#perturbation_labels": 55, "node_level_checks": 1000,
+    "reach": {"equal_pairs": 100, "perturbed_pairs": 1500,
+              "#perturbation_labels": 45, "node_level_checks": 1000,
               "expected_true_despite_change": 3, "cross_kind_checks": 1000},
     "assumptions": [
         "module order in ir.modules is not a compared field (deep_eq is "
